@@ -58,3 +58,7 @@ ops = ["mode etcd", put("/backends/k1", "https://h1.invalid/a", "s1"), "racebegi
 for i in range(150): ops += [put("/backends/k2", "https://h1.invalid/b", "s2"), "del " + enc("/backends/k2")]
 ops += ["raceend", probe("https://h1.invalid/a/x"), probe("https://h1.invalid/b/x")]
 w("10_etcd_lookups_during_events", ops)
+# etcd keeps the url as given (no final slash): a sibling path is not under the backend (before /repo's repair of
+# getBackendLocked the prefix comparison against the url as stored accepted https://h1.invalid/bx for .../b)
+w("12_etcd_sibling_path_not_under_backend", ["mode etcd", put("/backends/k1", "https://h1.invalid/b", "s0", stream=1000),
+   probe("https://h1.invalid/bx"), probe("https://h1.invalid/bx/ocs/v2.php"), probe("https://h1.invalid/b/x"), probe("https://h1.invalid/b"), "list"])
